@@ -317,6 +317,19 @@ pub struct Prog {
     pub pad_nops: usize,
 }
 
+/// The address size configured on the section object.  A version 4 `.debug_frame` CIE carries
+/// its own address size, which must govern everything (pointer widths, the overflow check of
+/// `DW_CFA_advance_loc*`); `set_address_size` is documented as only used for older CIEs, so for
+/// v4 the section is deliberately configured with a *different* size in 3 of 4 cases.
+fn section_addr_size(p: &Prog) -> u8 {
+    if p.kind == Kind::DebugFrame && p.version == 4 {
+        let k = (p.initial ^ p.range.rotate_left(7) ^ (p.cie.len() as u64) ^ ((p.fde.len() as u64) << 3)) % 4;
+        [1u8, 2, 4, 8][k as usize]
+    } else {
+        p.addr_size
+    }
+}
+
 impl Prog {
     pub fn spec(&self) -> SectionSpec {
         let cie = CieSpec {
@@ -474,7 +487,7 @@ fn with_section<'a>(ck: &mut Checker, p: &Prog, built: &'a Built, stos: &[Sto], 
         Kind::DebugFrame => {
             ck.ctx.obs("kind.debug_frame");
             let mut sec = DebugFrame::new(&built.bytes, endian);
-            sec.set_address_size(p.addr_size);
+            sec.set_address_size(section_addr_size(p));
             if p.aarch64 {
                 sec.set_vendor(Vendor::AArch64);
             }
@@ -483,7 +496,7 @@ fn with_section<'a>(ck: &mut Checker, p: &Prog, built: &'a Built, stos: &[Sto], 
         Kind::EhFrame => {
             ck.ctx.obs("kind.eh_frame");
             let mut sec = EhFrame::new(&built.bytes, endian);
-            sec.set_address_size(p.addr_size);
+            sec.set_address_size(section_addr_size(p));
             if p.aarch64 {
                 sec.set_vendor(Vendor::AArch64);
             }
@@ -504,12 +517,12 @@ fn check_unparsable(ctx: &mut Ctx, tag: &'static str, p: &Prog, built: &Built) {
     let got = match p.kind {
         Kind::DebugFrame => {
             let mut sec = DebugFrame::new(&built.bytes, endian);
-            sec.set_address_size(p.addr_size);
+            sec.set_address_size(section_addr_size(p));
             ctx.guard("UnwindSection::fde_from_offset", &input, || sec.fde_from_offset(&bases, off.into(), DebugFrame::cie_from_offset).map(|f| f.initial_address()))
         }
         Kind::EhFrame => {
             let mut sec = EhFrame::new(&built.bytes, endian);
-            sec.set_address_size(p.addr_size);
+            sec.set_address_size(section_addr_size(p));
             ctx.guard("UnwindSection::fde_from_offset", &input, || sec.fde_from_offset(&bases, off.into(), EhFrame::cie_from_offset).map(|f| f.initial_address()))
         }
     };
